@@ -43,6 +43,29 @@ class EZSPv14(EZSPv13):
 
             yield nwk, eui64
 
+    async def read_link_keys(self) -> AsyncGenerator[zigpy.state.Key, None]:
+        (status, key_table_size) = await self.getConfigurationValue(
+            configId=t.EzspConfigId.CONFIG_KEY_TABLE_SIZE
+        )
+
+        for index in range(key_table_size):
+            (
+                status,
+                context,
+                plaintext_key,
+                key_data,
+            ) = await self.exportLinkKeyByIndex(index=index)
+
+            if status != t.sl_Status.OK:
+                continue
+
+            yield zigpy.state.Key(
+                key=plaintext_key,
+                tx_counter=key_data.outgoing_frame_counter,
+                rx_counter=key_data.incoming_frame_counter,
+                partner_ieee=context.eui64,
+            )
+
     async def get_network_key(self) -> zigpy.state.Key:
         status, network_key_data, _ = await self.exportKey(
             context=t.SecurityManagerContextV13(
